@@ -115,6 +115,7 @@ def run(ctx, rep):
     from . import c07 as _c07
 
     _c07.rule_guard(ctx, rep)  # the address a handle reports is that of the block it owns: a replacement behind with_arc_mut's transient is stored back on both exits
+    balance.rule_zst_div(ctx, rep)  # the round trip works "for every payload size ... including zero-sized types"
     balance.rule_writeback(ctx, rep)
     c10.rule_thick(ctx, rep)  # a thin handle taken back from its raw pointer shows the slice its block holds: the length is read from that block's own header
     for tag, F, E in ctx.each(da=False):
@@ -399,6 +400,7 @@ def main(argv):
             ' Added later: R-THICK as a premise (what `from_raw(into_raw(x))` shows is read through the same length-reading helper).'
             " R-REFCNT-PAIR on every RefCnt impl; the union's Clone/Drop arms."
             ' Round thirteen: R-GUARD and R-WRITEBACK as premises (the address a handle reports is that of the block it owns).'
+            ' Round fifteen: R-ZST-DIV.'
         ),
         rule_text="instances = accessor pairings, NOREF sites, repr facts, width witnesses",
         trusted_base=["rustc MIR def-use and trait resolution", "offset lemma validated by C05", "rustc layout computation for the width witnesses"],
